@@ -284,6 +284,7 @@ fn documents(thorough: bool) -> (Vec<String>, Vec<String>) {
         "10 PRINT \"é\" = \"😊\" + 1", "10 DATA 😊:PRINT 1 +", "10 REM é\n10", "10 PRINT \"😊\" + 1\n10 PRINT \"", "10 IF 1 THEN PRINT \"é\" ELSE PRINT \"😊\" + 1",
         // one UTF-16 unit, three UTF-8 bytes (U+0800..U+FFFF): CJK, euro sign, dashes, curly quotes
         "10 PRINT ((((((((((((((((((((((((((((((((((((((((((((((((((((((((((((((((((((((1))))))))))))))))))))))))))))))))))))))))))))))))))))))))))))))))))))))", "10 IF 1 THEN IF 1 THEN X = A(A(A(A(A(A(A(A(A(A(A(A(A(A(A(A(A(A(A(A(A(A(A(A(A(A(A(A(A(A(A(A(A(A(A(A(A(A(A(A(A(A(A(A(A(A(A(A(A(A(A(A(A(A(A(A(A(A(A(A(A(A(A(A(A(A(1))))))))))))))))))))))))))))))))))))))))))))))))))))))))))))))))))",
+        "\u{feff}10 PRINT \"a\" + 1\n20 X$ = 1", "10\u{a0}PRINT 1 +", "\u{ff11}\u{ff10} PRINT 1\n10 PRINT \"\u{e9}\" + 1", "10 PRINT 1\u{c}+ \"a\"", "\u{3000}10 X$ = 1", "10 X = 1\u{2028}20 Y$ = 2",
         "10 PRINT \"日本語\" + 1", "10 REM 価格 € — x\n20 X$ = 1", "10 DATA 日本, \"€\", 3: PRINT 1 +", "10 PRINT \"“q”\";Z€", "10 PRINT \"末尾", "10 A$ = \"ꙮ\": B = A$ + \"\u{ffff}\" + 1",
     ];
     docs.extend(non_ascii.iter().map(|s| s.to_string()));
